@@ -244,6 +244,30 @@ pub fn gen_multi_mode(rng: &mut Rng, p: &GenParams, la_percent: usize, max_modes
             trans,
         });
     }
+    // now and then two modes of the scanner are identical except for the name, or for one transition
+    // target (what a "compile equal modes once" shortcut would have to keep apart), and some mode
+    // switches into the twin
+    if !cfg!(miri) && rng.chance(1, 10) {
+        let k = rng.below(modes.len());
+        let mut twin = modes[k].clone();
+        twin.name = format!("{}_twin", twin.name);
+        let twin_index = modes.len();
+        if rng.chance(1, 2) {
+            if let Some(t) = twin.trans.first_mut() {
+                t.1 = twin_index;
+            }
+        }
+        modes.push(twin);
+        let from = rng.below(modes.len());
+        if let Some(tt) = modes[from].pats.first().map(|q| q.tt) {
+            if let Some(t) = modes[from].trans.iter_mut().find(|(x, _)| *x == tt) {
+                t.1 = twin_index;
+            } else {
+                modes[from].trans.push((tt, twin_index));
+                modes[from].trans.sort();
+            }
+        }
+    }
     ScannerCfg { modes }
 }
 
